@@ -242,4 +242,44 @@ theorem joinLines_strLines (m : Bytes) (hcr : CR ∉ m) (hnl : m.getLast? ≠ so
           simp [strLines, splitInclusiveNL, hb, hsi]
         rw [hs, stripLineEnd_cons b l' hl' (fun h => hbcr h.1), joinLines_cons_cons, ← hs', hih]
 
+/-- `lines()` joined by `\n`, plus the final `\n` that `lines()` swallows, is the text itself when
+it holds no `\r` (what `push_matched_to_ret` appends since 0b29009) -/
+theorem joinLines_strLines_tail (m : Bytes) (hcr : CR ∉ m) :
+    joinLines (strLines m) ++ (if endsWithNL m then [NL] else []) = m := by
+  induction m with
+  | nil => simp [strLines, splitInclusiveNL, joinLines, endsWithNL]
+  | cons b bs ih =>
+    have hcr' : CR ∉ bs := fun h => hcr (List.mem_cons_of_mem _ h)
+    have hbcr : b ≠ CR := fun h => hcr (by rw [h]; simp)
+    cases hsi : splitInclusiveNL bs with
+    | nil =>
+      have hbs : bs = [] := (splitInclusiveNL_eq_nil bs).mp hsi
+      subst hbs
+      by_cases hb : b = NL
+      · subst hb
+        simp [strLines, splitInclusiveNL, stripLineEnd_nl, joinLines, endsWithNL]
+      · simp [strLines, splitInclusiveNL, hb, stripLineEnd, stripSuffixByte, joinLines, endsWithNL]
+    | cons l' ls' =>
+      have hbsne : bs ≠ [] := fun h => by rw [h] at hsi; simp [splitInclusiveNL] at hsi
+      have hlast : endsWithNL (b :: bs) = endsWithNL bs := by
+        simp [endsWithNL, List.getLast?_cons_of_ne_nil hbsne]
+      have hih := ih hcr'
+      have hs' : strLines bs = stripLineEnd l' :: ls'.map stripLineEnd := by simp [strLines, hsi]
+      rw [hlast]
+      by_cases hb : b = NL
+      · have hs : strLines (b :: bs) = [] :: strLines bs := by
+          simp [strLines, splitInclusiveNL, hb, stripLineEnd_nl]
+        rw [hs, hs']
+        rw [hs'] at hih
+        simp only [joinLines, List.nil_append, List.cons_append]
+        rw [hih, hb]
+      · have hl' : l' ≠ [] := splitInclusiveNL_pieces_ne_nil bs l' (by rw [hsi]; simp)
+        have hs : strLines (b :: bs) = stripLineEnd (b :: l') :: ls'.map stripLineEnd := by
+          simp [strLines, splitInclusiveNL, hb, hsi]
+        rw [hs, stripLineEnd_cons b l' hl' (fun h => hbcr h.1), joinLines_cons_cons, ← hs',
+          List.cons_append, hih]
+
+theorem strLines_eq_nil (m : Bytes) : strLines m = [] ↔ m = [] := by
+  simp [strLines, splitInclusiveNL_eq_nil]
+
 end AGV
